@@ -7,6 +7,7 @@ import z3
 from engine import contexts, tabvc
 from engine.aseshim import SymAtoms, sym_cell, sym_pbc, sym_positions, sym_int_rows
 from engine.common import Report, Ob, prove, func_source_info
+from engine.errors import Unsupported
 from engine.larr import RowArr
 from engine.npshim import NP, det_term, obj
 from engine.pyvc import SR, sint, z3num, z3bool, cur
@@ -63,6 +64,10 @@ def run():
 
     PtC = [[sum(A[k][i] * C[k][j] for k in range(3)) for j in range(3)] for i in range(3)]
     rep.add(prove("prim.volume-ratio", [], det(PtC) == det(A) * det(C), func=REL + ":SymmetryAnalyzer._get_primitive_system", timeout_ms=60000))
+    # spglib is asked about the analysed structure with the analyzer's tolerance; the simple getters are dataset look-ups (shared section)
+    from props import _sym as _symmod
+    from props._util import section as _section
+    _section(rep, "dataset", lambda: _symmod.dataset_section(rep))
     return rep
 
 
@@ -213,15 +218,20 @@ def _letters_original(rep):
         self_ = contexts.make_self(m, "SymmetryAnalyzer", {"_best_transform": {"permutations": PermMap()}})
         return [self_], {}, {"L": L}
 
+    def the_list(env):
+        """the list the loop fills: whatever the function calls it (the only list / log among its locals)"""
+        names = [k for k, v in env.vars.items() if isinstance(v, (list, Letters))]
+        if len(names) != 1:
+            raise Unsupported("get_wyckoff_letters_original: expected one list among the locals, found %s" % names)
+        return names[0]
+
     def havoc(st, env, old):
         lg = Letters()
         st.ghost["letters_log"] = lg
-        env.vars["new_wyckoffs"] = lg
-        for nm in ("old_wyckoff", "new_wyckoff"):
-            env.vars.pop(nm, None)
+        env.vars[the_list(env)] = lg
 
     def body(st, env, k, old):
-        lg = env.lookup("new_wyckoffs")
+        lg = env.vars[the_list(env)]
         ok = isinstance(lg, Letters) and len(lg.log) == 1
         out = [("one-entry-appended-per-atom", z3.BoolVal(ok))]
         if ok:
